@@ -334,7 +334,7 @@ SUBCHECKS = [
         budget_quick=170, timeout=300),
 ] + [
     Sub('helpers-' + nm.split('/')[0], (lambda nm=nm: helper_cases_for(nm)), check_helpers, quick=150, thorough=1500, shards_quick=2, shards_thorough=2,
-        required=(('ivs-helpers',) if nm != 'neohookean/adagio' else ()), budget_quick=150, budget_thorough=1200, timeout=600)
+        required=(('ivs-helpers',) if nm != 'neohookean/adagio' else ()), budget_quick=150, budget_thorough=900, timeout=600)
     for nm in HELPER_MODELS if nm != 'j2/large/voce' or _T
 ] + [
     Sub('adjoint-fs', afs_cases, check_afs, quick=60, thorough=2000, shards_quick=2, shards_thorough=2, required=('order1', 'order2', 'order3', 'axisymmetric')),
